@@ -20,7 +20,7 @@ const (
 	interval = time.Millisecond
 )
 
-var workloads = []string{"in-order", "loss", "duplicates", "reordering", "with-feedback", "loss-with-feedback"}
+var workloads = []string{"in-order", "loss", "duplicates", "reordering", "with-feedback", "loss-with-feedback", "retransmissions-lagging-ccfb"}
 
 // Pair is one (interceptor, workload) measurement; JSON doubles as replay file.
 type Pair struct {
@@ -88,9 +88,14 @@ func runPair(p Pair) result { //nolint:cyclop,gocognit
 	rtcpSrc := &kit.ByteSource{}
 	rtcpIn := ic.BindRTCPReader(rtcpSrc)
 	rtpSink := &countingRTP{}
-	linfo := kit.LocalInfo(0x6001, twccID, true, true)
+	ccfb := p.Workload == "retransmissions-lagging-ccfb" // no transport-cc negotiated: RFC 8888 feedback keyed by (SSRC, sequence number), no RTX
+	tw := twccID
+	if ccfb {
+		tw = 0
+	}
+	linfo := kit.LocalInfo(0x6001, tw, !ccfb, true)
 	w := ic.BindLocalStream(linfo, rtpSink)
-	rinfo := kit.RemoteInfo(0x7001, twccID)
+	rinfo := kit.RemoteInfo(0x7001, tw)
 	src := &kit.ByteSource{}
 	r := ic.BindRemoteStream(rinfo, src)
 	x := p.Seed | 1
@@ -107,12 +112,18 @@ func runPair(p Pair) result { //nolint:cyclop,gocognit
 	rawBuf := make([]byte, 200)
 	sendOne := func(seq uint16) {
 		twOut++
-		h := kit.WithTWCC(rtp.Header{Version: 2, SSRC: 0x6001, PayloadType: 96, SequenceNumber: seq, Timestamp: uint32(seq) * 90}, twccID, twOut)
+		h := rtp.Header{Version: 2, SSRC: 0x6001, PayloadType: 96, SequenceNumber: seq, Timestamp: uint32(seq) * 90}
+		if !ccfb {
+			h = kit.WithTWCC(h, twccID, twOut)
+		}
 		_, _ = w.Write(&h, payload, nil)
 	}
 	recvOne := func(seq uint16) {
 		twIn++
-		h := kit.WithTWCC(rtp.Header{Version: 2, SSRC: 0x7001, PayloadType: 96, SequenceNumber: seq, Timestamp: uint32(seq) * 90}, twccID, twIn)
+		h := rtp.Header{Version: 2, SSRC: 0x7001, PayloadType: 96, SequenceNumber: seq, Timestamp: uint32(seq) * 90}
+		if !ccfb {
+			h = kit.WithTWCC(h, twccID, twIn)
+		}
 		n, err := (&rtp.Packet{Header: h, Payload: payload[:20]}).MarshalTo(rawBuf)
 		if err != nil {
 			return
@@ -129,7 +140,11 @@ func runPair(p Pair) result { //nolint:cyclop,gocognit
 		}
 		size := 20 + 2 + n
 		fb.Header = rtcp.Header{Count: rtcp.FormatTCC, Type: rtcp.TypeTransportSpecificFeedback, Padding: size%4 != 0, Length: uint16((size+3)/4 - 1)} //nolint:gosec
-		blk := rtcp.CCFeedbackReportBlock{MediaSSRC: 0x6001, BeginSequence: seqOut - uint16(n) + 1} //nolint:gosec
+		lag := uint16(0)
+		if ccfb {
+			lag = 100 // the feedback trails the sender
+		}
+		blk := rtcp.CCFeedbackReportBlock{MediaSSRC: 0x6001, BeginSequence: seqOut - lag - uint16(n) + 1} //nolint:gosec
 		for i := 0; i < n; i++ {
 			blk.MetricBlocks = append(blk.MetricBlocks, rtcp.CCFeedbackMetricBlock{Received: i%10 != 3, ArrivalTimeOffset: uint16(n - i)}) //nolint:gosec
 		}
@@ -145,7 +160,7 @@ func runPair(p Pair) result { //nolint:cyclop,gocognit
 		rtcpSrc.Push(raw)
 		_, _, _ = rtcpIn.Read(buf, nil)
 	}
-	withFeedback := p.Workload == "with-feedback" || p.Workload == "loss-with-feedback"
+	withFeedback := p.Workload == "with-feedback" || p.Workload == "loss-with-feedback" || ccfb
 	lossy := p.Workload == "loss" || p.Workload == "loss-with-feedback"
 	sentTotal := int64(0)
 	for ph := 0; ph < p.Phases; ph++ {
@@ -169,6 +184,12 @@ func runPair(p Pair) result { //nolint:cyclop,gocognit
 				recvOne(seqIn)
 				seqOut++
 				seqIn++
+				sentTotal += 2
+			case ccfb && roll < 10 && i > 40:
+				// a retransmission of an earlier number on the media SSRC (NACK answered without RTX), then the next packet
+				sendOne(seqOut - 30)
+				sendOne(seqOut)
+				recvOne(seqIn)
 				sentTotal += 2
 			default:
 				sendOne(seqOut)
@@ -235,7 +256,7 @@ func runPair(p Pair) result { //nolint:cyclop,gocognit
 // knownFor returns the id of a listed known finding that explains growth of this pair, if any.
 func knownFor(p Pair) string {
 	switch {
-	case p.Member == "rtpfb" && p.Workload != "with-feedback" && p.Workload != "loss-with-feedback":
+	case p.Member == "rtpfb" && p.Workload != "with-feedback" && p.Workload != "loss-with-feedback" && p.Workload != "retransmissions-lagging-ccfb":
 		return "C12-rtpfb-history-without-feedback"
 	case p.Member == "jitterbuffer" && (p.Workload == "loss" || p.Workload == "loss-with-feedback" || p.Workload == "duplicates" || p.Workload == "reordering"):
 		return "C12-jitterbuffer-queue-grows-after-loss"
